@@ -21,7 +21,10 @@
  *        widest access (bytes); floating loads/stores are counted and address-checked but carry no value;
  *      - floating-point instructions, call, alloc, ...: recorded only; the result's ghost value is unconstrained
  *        and rec.nonint is set (units that reach them state OPCODE-level postconditions only);
- *   3. returns &rec.pool[k].res, a VALUE_TEMP with a fresh id.
+ *   3. returns the address of the result member of a freshly allocated struct inst (as the real mkinst() does;
+ *      one heap object per instruction keeps CBMC's points-to sets small: a static pool indexed by the symbolic
+ *      instruction count made every later dereference a byte-extract over the whole pool, 3 M SAT variables),
+ *      a VALUE_TEMP with a fresh id; the pointer is also recorded in rec.log[k].resp.
  * `f` is not touched (the block list, f->lastid and "dead" blocks are the builder units' business).
  */
 #ifndef IL_REC_C
@@ -36,6 +39,7 @@ struct rec_entry {
 	struct value *arg[2];   /* as passed by the real code */
 	u64 a[2];               /* their ghost values at that moment (0 for NULL / non-integer constants) */
 	u64 res;                /* ghost value of the result */
+	struct value *resp;     /* the result temporary handed back to the real code */
 	u64 mem_before;         /* content of the memory cell before this instruction */
 };
 
@@ -48,7 +52,6 @@ struct rec_state {
 	unsigned maxw;                  /* widest access in bytes */
 	u64 mem_addr, mem;              /* the one memory cell */
 	struct rec_entry log[REC_MAX];
-	struct inst pool[REC_MAX];
 } rec;
 
 u64 nondet_rec_u64(void);
@@ -157,7 +160,9 @@ rec_funcinst(struct func *f, int op, int class, struct value *arg0, struct value
 	if (!ok)
 		rec.ok = 0;
 
-	inst = &rec.pool[k];
+	inst = malloc(sizeof(*inst));
+	__CPROVER_assume(inst != 0);
+	e->resp = &inst->res;
 	inst->kind = op;
 	inst->class = class;
 	inst->arg[0] = arg0;
